@@ -49,6 +49,12 @@ claimed = {
  "C02": dict(cat="model_checking", tech="explicit-state closure search over list states per Updater type on the real code (every transition through UpdateList, FeatureRemote.UpdateData, FeatureLocal.UpdateData), independent reference fold",
              text="For every type implementing model.Updater (discovered from the working tree) a breadth-first search to closure over all list states reachable with identifiers {1,2} (thorough {1,2,3}, depth 3) and two payload fields x an update menu of every filter shape (full, partial, identifier-less, partial+selector, empty selector update, delete by id/payload selector, delete elements, delete+partial); every transition is executed through the per-type UpdateList, the reply/notify path (persisting and not) and the local API and compared with an independent fold of the cmdOption rules, including the returned value, order by identifier and idempotence.",
              ref="4 C02"),
+ "C04": dict(cat="model_checking", tech="bounded exhaustive enumeration of (existing list x remote write) on the real code through real write datagrams, with a differential oracle over unaddressed elements",
+             text="For the list types with a boolean writecheck field (discovered from the working tree): all 64 existing lists over identifiers {1,2,3} with flag true/false/absent x 77 remote writes of every shape (full, partial, identifier-less, selector, delete by selector/elements (payload and flag field), delete+partial, each also trying to set the flag), delivered as write datagrams from a bound client; clauses: error => data unchanged, protected elements untouched, flags never change, unaddressed elements neither change nor influence the verdict (differential), success => every change applied.",
+             ref="4 C04"),
+ "C11": dict(cat="model_checking", tech="bounded exhaustive enumeration of (snapshot x ordered pairs of later updates x update path) on the real code + stateless schedule exploration of a reader vs an update with the race detector on every schedule",
+             text="For every list function with numeric identifiers: objects retained by the application (value given to SetData, DataCopy of local and remote feature, data of the last data-change event, and every snapshot taken after each step) are photographed and compared after every update of every ordered pair from a menu of 8 shapes through 5 paths (local API, remote write, notify, reply, non-persisting UpdateData); non-persisting and rejected updates must leave the store unchanged; use-case snapshots vs later use-case operations; schedules: encoding a snapshot while a selector update / partial notify / remote write / use-case change is processed, functional comparison and race detector on every interleaving.",
+             ref="4 C11"),
 }
 checks = []
 for pid, c in sorted(claimed.items()):
